@@ -12,6 +12,7 @@ import copy as _copy
 
 QS = ["info", "full", "rows", "grouped"]
 RM = ["nosupport", "enoent", "esrch_open", "esrch_read", "ok"]
+SYS_RM = ["nosupport", "enoent", "esrch_open", "ok"]     # esrch_read only in the random histories
 
 
 def quiet_trace(ops):
@@ -55,7 +56,7 @@ def _uniform_mappings(C, rng, n):
 
 def _two_states(C, rng, rmode, change):
     """state 0 and state 1 = state 0 after a mapping was added / removed / resized and statm changed (or identical)"""
-    allms = _uniform_mappings(C, rng, rng.choice([2, 3]))
+    allms = _uniform_mappings(C, rng, 2)
     how = rng.choice(["added", "removed", "resized"]) if change else "same"
     if how == "added":
         ms0, ms1 = allms[:-1], allms
@@ -92,7 +93,7 @@ def systematic(C, rng):
     out = []
     for ck in ("copy", "deep"):
         for where in ("inside", "outside"):
-            for rmode in RM:
+            for rmode in SYS_RM:
                 for change in (True, False):
                     sts, how = _two_states(C, rng, rmode, change)
                     tgt = (lambda q: ["call", 1, q]) if ck == "copy" else (lambda q: ["dcall", 0, q])
@@ -106,9 +107,9 @@ def systematic(C, rng):
                     if where == "inside":
                         ops.append([ck, 0])
                     ops += [["call", 0, "rows"], ["exit", 0], ["set", 1]]
-                    ops += [tgt(q) for q in QS] + _all("call", 0) + [["new"]] + _all("call", 2 if ck == "copy" else 1)
-                    ops += [ent] + [tgt(q) for q in QS] + [["set", 0]] + [tgt(q) for q in ("info", "rows")] + [ext]
-                    ops += [tgt(q) for q in QS] + _all("call", 0)
+                    ops += [tgt(q) for q in QS] + [["call", 0, "full"], ["call", 0, "grouped"], ["new"], ["call", 2 if ck == "copy" else 1, "rows"]]
+                    ops += [ent] + [tgt(q) for q in ("full", "rows")] + [["set", 0]] + [tgt("info")] + [ext]
+                    ops += [tgt(q) for q in QS] + [["call", 0, rng.choice(QS)]]
                     out.append({"kind": "handles", "cls": "handles-%s-%s-%s-%s" % (ck, where, rmode, "change" if change else "same"),
                                 "pagesize": C._page(), "states": sts, "ops": ops, "how": how})
     return out
@@ -118,7 +119,7 @@ def random_history(C, rng):
     rmode = rng.choice(RM)
     sts, how = _two_states(C, rng, rmode, True)
     nh, nd, ops, open_, dopen = 1, 0, [], [], []
-    for _ in range(rng.randint(10, 22)):
+    for _ in range(rng.randint(8, 16)):
         r = rng.random()
         h = rng.randrange(nh)
         if r < 0.14 and len(open_) < 3:
@@ -145,7 +146,7 @@ def random_history(C, rng):
         ops.append(["exit", open_.pop()])
     ops.append(["set", rng.choice([0, 1])])
     for h in range(nh):
-        ops += [["call", h, q] for q in rng.sample(QS, 2)]
+        ops += [["call", h, q] for q in rng.sample(QS, 1 if nh > 3 else 2)]
     for d in range(nd):
         ops += [["dcall", d, q] for q in rng.sample(QS, 2)]
     return {"kind": "handles", "cls": "handles-random", "pagesize": C._page(), "states": sts, "ops": ops, "how": how}
